@@ -173,6 +173,11 @@ func fetchPkgEnums(pa *packages.Package) enumsMap {
 		}
 		// per the spec, only basic types may be constant
 
+		if pkg := named.Obj().Pkg(); pkg == nil || pkg.Path() != pa.Types.Path() {
+			// a constant does not make an enum of a type declared in another package
+			continue
+		}
+
 		comment := fetchConstComment(pa, decl)
 		if strings.Contains(comment, IgnoreDeclComment) { // this value does not implies an enum
 			continue
